@@ -36,7 +36,8 @@ def tick(name):
 tick_A = tick('A')
 tick_B = tick('B')
 tick_S = tick('S')
-tick_start = tick('start')'''
+tick_start = tick('start')
+tick_Ig0 = tick('Ig0')'''
 
 
 def count_refs(e):
@@ -58,6 +59,14 @@ def mutual_ok(a, b):
     return True
 
 
+def starts_small():
+    yield ('star', ('choice', A_, B_))
+    yield ('seq', A_, B_)
+    yield ('star', ('seq', A_, ('opt', B_)))
+    yield ('seq', ('expect', A_), A_, ('opt', B_))
+    yield ('choice', ('seq', A_, B_), ('seq', A_, A_), A_)
+
+
 def universe(tier):
     aset = QUICK_A if tier == 'quick' else list(BODIES_A)
     bset = QUICK_B if tier == 'quick' else list(BODIES_B)
@@ -70,7 +79,13 @@ def universe(tier):
     for an in aset:
         for bn in bset:
             for e in starts:
-                yield ('menu', e, [('A', BODIES_A[an]), ('B', BODIES_B[bn])], 'ab:4', True)
+                yield ('menu', e, [('A', BODIES_A[an]), ('B', BODIES_B[bn])], 'ab:4', True, [])
+    # ignore rules are parameterless rules too: their bodies (with a probe) must run once per position
+    SPACE = ('re', ' +')
+    for e in starts_small():
+        for an in ('lit', 'seqfail', 'class'):
+            for bn in ('lit', 'list'):
+                yield ('ignore-rule', e, [('A', BODIES_A[an]), ('B', BODIES_B[bn])], 'ab\\s:5', True, [SPACE])
     # families whose un-memoised evaluation is exponential
     S = ('ref', 'S')
     fams = [
@@ -88,13 +103,13 @@ def universe(tier):
             for tail in ('', 'x', 'y', 'z'):
                 deep.append('(' * d + 'a' + ')' * d + tail)
                 deep.append('(' * d + 'a' + ')' * (d - 1) + tail)
-        yield ('expfam-small', S, rules, 'a()xy:%d' % (5 if tier == 'quick' else 6), True)
-        yield ('expfam-deep', S, rules, deep, False)
+        yield ('expfam-small', S, rules, 'a()xy:%d' % (5 if tier == 'quick' else 6), True, [])
+        yield ('expfam-deep', S, rules, deep, False, [])
 
 
 def jobs(tier):
-    for tag, e, rules, inp, unmemo in universe(tier):
-        yield {'tag': tag, 'start': e, 'rules': rules, 'inputs': inp, 'unmemo': unmemo}
+    for tag, e, rules, inp, unmemo, ign in universe(tier):
+        yield {'tag': tag, 'start': e, 'rules': rules, 'inputs': inp, 'unmemo': unmemo, 'ignores': ign}
 
 
 def aliases(v, path, out, is_impl):
@@ -127,8 +142,13 @@ def run_job(job):
     def bump(k, n=1):
         ctr[k] = ctr.get(k, 0) + n
     rules = [('start', ('rule', None, job['start']))] + list(job['rules'])
-    mspec = Spec(rules)
-    ispec = Spec([(n, probe(n, d)) for n, d in rules], py=[PY])
+    ign = job.get('ignores') or []
+    mspec = Spec(rules, ignores=ign)
+    # (inside an ignore rule every literal is itself followed by a skip, so the probe must not
+    # match the empty string: it would re-enter the skip at the end of the text for ever)
+    iprobe = lambda i: ('opt', ('expect', ('apply', ('re', '(?s).+'), ('py', 'tick_Ig%d' % i))))
+    ispec = Spec([(n, probe(n, d)) for n, d in rules], py=[PY],
+                 ignores=[('right', iprobe(i), p) for i, p in enumerate(ign)])
     desc = render.spec(ispec)
     b = impl.build(desc)
     tag = job['tag']
@@ -141,7 +161,7 @@ def run_job(job):
     if isinstance(inputs, str):
         inputs = e1.input_set(inputs)
     counters = Counters()
-    nrules = len(rules)
+    nrules = len(rules) + len(ign)
     sigs = set()
     sample = None
     for text in inputs:
